@@ -138,6 +138,10 @@ def run(tier, seed):
         ("g(%s, 1, %s);", lambda st: [st["e"]["a"][0], st["e"]["a"][2]] if st["k"] == "expr" and st["e"]["k"] == "call" and len(st["e"]["a"]) == 3 else None),
         ("arr[%s] = %s;", lambda st: [st["e"]["i"], st["e"]["e"]] if st["k"] == "expr" and st["e"]["k"] == "aasg" else None),
         ("for (v = %s; %s; v = %s) { }", lambda st: [st["init"]["e"]["e"] if st["init"]["k"] == "expr" else st["init"]["e"], st["c"], st["upd"]["e"]] if st["k"] == "for" else None),
+        # grammar.md: primary = "measure" expression - the operand of an inline measurement is a whole expression
+        ("bit m = measure %s;", lambda st: [st["init"]["e"]] if st["k"] == "decl" and st["init"]["k"] == "measure" else None),
+        ("echo(x | measure %s);", lambda st: [st["e"]["r"]["e"]] if st["k"] == "echo" and st["e"]["k"] == "bin" and st["e"]["op"] == "|" and st["e"]["l"] == {"k": "id", "n": "x"}
+                                  and st["e"]["r"]["k"] == "measure" else None),
         # the initialiser clause is optional
         ("for (; %s; v = %s) { }", lambda st: [st["c"], st["upd"]["e"]] if st["k"] == "for" and st["init"]["k"] == "none" else None),
         ("while (x < 1) { for (; %s; %s) { } }", lambda st: [st["b"]["b"][0]["c"], st["b"]["b"][0]["upd"]] if st["k"] == "while" and st["b"]["b"] and st["b"]["b"][0]["k"] == "for"
@@ -301,6 +305,27 @@ def run(tier, seed):
             st = None
         if not st or st.get("k") != "decl" or st.get("n") != "v" or bool(st.get("final")) != final or bool(st.get("tracked")) != tracked:
             bad.append(("declaration '%s' in a %s parsed as %s" % (decl, where, {k: st.get(k) for k in ("k", "n", "final", "tracked")} if st else None), {"source": lj[i]["src"], "got": st}))
+    # ---- 3c. array lengths: T[N] keeps its literal length (0 included) in every position a type can stand in; T[] has none
+    aj, ameta = [], []
+    for elem in ("int", "float", "bit", "qubit", "string", "char", "long"):
+        for n_ in (None, 0, 1, 2, 7, 100, 65536):
+            ty = "%s[%s]" % (elem, "" if n_ is None else n_)
+            src = ("function f(%s p) -> %s { return p; }\nfunction main() -> void { %s v; { %s w; } }\nclass H { public %s h; public constructor() -> H = default; }\n" % (ty, ty, ty, ty, ty))
+            ameta.append((ty, -1 if n_ is None else n_))
+            aj.append({"id": len(aj), "stage": "ast", "src": src})
+    ares = runner.run_jobs(aj)
+    for i, (ty, want) in enumerate(ameta):
+        r = ares[i]
+        if r["status"] != "ok":
+            bad.append(("type '%s' follows the documented grammar but is rejected: %s" % (ty, r.get("what", r["status"]).strip()), {"source": aj[i]["src"]}))
+            continue
+        f = r["ast"]["funcs"]
+        seen = {"parameter": f[0]["params"][0]["t"], "return type": f[0]["ret"], "local": f[1]["body"][0]["t"], "nested local": f[1]["body"][1]["b"][0]["t"],
+                "field": r["ast"]["classes"][-1]["members"][0].get("t")}
+        for where, t in seen.items():
+            if not t or t.get("t") != "arr" or t.get("size") != want:
+                bad.append(("type '%s' as a %s parsed with length %s" % (ty, where, t.get("size") if t else None), {"source": aj[i]["src"], "got": t}))
+                break
     # ---- 4. spellings the documentation declares equivalent, and one type written in different syntactic positions
     eq_pairs, type_cases = spelling_cases()
     ej = []
